@@ -82,6 +82,9 @@ class Net:
         # packet ids are numbered per flow (as real generators do), so they say nothing about arrival order across flows
         self.per_flow[flow] = self.per_flow.get(flow, 0) + 1
         # created one second before it reaches the element (creation time is not arrival time)
+        if payload is None:
+            # payloads are opaque to every element: nothing, a dict, a string full of format characters
+            payload = (None, {"n": i}, '{"k": "%s {0} {}"}')[i % 3]
         pkt = Packet(env.now - 1, size, self.per_flow[flow], src=src, flow_id=flow, payload=payload)
         self.seq += 1
         a = Arr(i, self.seq, env.now, self.step, flow, size, pkt)
